@@ -20,6 +20,8 @@ RULE = ('(tables) macro programs from the C03 generator (multi-file, reps, names
         'matching addresses.  (library paths) programs calling stl macros, assembled after 0-2 other assemblies in the same process that gave the '
         'library files other short names (s1.., f1.. via get_stl_paths(), names chosen via assembler.assemble): every path '
         'element short:line:macro of every table entry must name a file of THIS assembly whose line calls that macro.  '
+        '(same name) programs in which one label statement is reached by two expansions under the same resolved name '
+        '(through a label parameter, a rep, a macro-local name passed down) must be refused - never trivial-counted.  '
         '(round trip) arbitrary {str: int} dictionaries survive save/load unchanged.  non-trivial = '
         '>= 2 expansions of a macro that has an @ label, or a rep with n >= 2, or one spelling in two namespaces')
 ASSUMPTIONS = ['expected addresses come from fjverif/asmref.layout of the inlined program (independent of the assembler)',
@@ -67,9 +69,42 @@ def stl_path_cases(draw):
     return {'kind': 'stl-paths', 'steps': steps}
 
 
+SAME_NAME = [
+    'def mark l {\n  l:\n  5;\n}\n;\nmark here\nmark here\n',
+    'def mark l {\n  l:\n  5;\n}\n;\nrep(2, i) mark here\n',
+    'def mark l {\n  l:\n  5;\n}\ndef outer @ x {\n  mark x\n  mark x\n}\n;\nouter\n',
+    'def mark l {\n  l:\n  5;\n}\ndef outer @ x {\n  rep(3, i) mark x\n}\n;\nouter\nouter\n',
+    'ns a {\n  def mark l {\n    l:\n    ;\n  }\n}\n;\na.mark t\n;\na.mark t\n',
+    'def mark l {\n  l:\n  ;\n}\n;\nhere:\nmark here\n',
+    'def mark2 l {\n  mark l\n}\ndef mark l {\n  l:\n  ;\n}\n;\nmark2 q\nmark q\n',
+]
+
+
+@st.composite
+def same_name_cases(draw):
+    d = D(draw)
+    return {'kind': 'same-name', 'w': d.choice([16, 32, 64]), 'prog': d.int(0, len(SAME_NAME) - 1), 'pre_ops': d.int(0, 3)}
+
+
+def run_same_name(case):
+    """one label statement reached by two expansions under the same resolved name: the table could name only one of the two
+    addresses, so the assembler has to refuse the program"""
+    src = ';\n' * case['pre_ops'] + SAME_NAME[case['prog']]
+    res = c03.assemble_files([src], case['w'], 'c16same', debug=True)
+    cl = ['family=same-name', 'w=%d' % case['w']]
+    if res[0] == 'timeout':
+        return Discard('inconclusive: assembler wall guard')
+    if res[0] == 'ok':
+        return Violation('c16:same-name-declared-by-two-expansions-accepted', {'src': src, 'table': sorted(res[2].items())[:8]}, cl)
+    if res[0] == 'raw':
+        return Violation('c16:same-name:raw-exception', {'src': src, 'exc': repr(res[1])[:200]}, cl)
+    return Ok(cl, False)
+
+
 def families(tier):
     q = tier == 'quick'
-    return [{'name': 'label-tables', 'strategy': table_cases, 'examples': 350 if q else 25000},
+    return [{'name': 'same-name-twice', 'strategy': same_name_cases, 'examples': 8 if q else 100},
+            {'name': 'label-tables', 'strategy': table_cases, 'examples': 350 if q else 25000},
             {'name': 'library-expansion-paths', 'strategy': stl_path_cases, 'examples': 12 if q else 600},
             {'name': 'save-load-roundtrip', 'strategy': roundtrip_cases, 'examples': 200 if q else 10000}]
 
@@ -267,4 +302,6 @@ def run_case(case):
         return run_roundtrip(case)
     if case.get('kind') == 'stl-paths':
         return run_stl_paths(case)
+    if case.get('kind') == 'same-name':
+        return run_same_name(case)
     return run_table(case)
